@@ -122,7 +122,8 @@ def power_nests():
     return out
 
 
-FOLD_MAGNITUDES = ["5000000001 / 2 + x", "x + 5000000001 / 2", "3 * 333333333.5 + x", "1000000001 * 0.5 + x", "x * (10000000001 / 4)",
+FOLD_MAGNITUDES = ["(0.00000002 / 3) * x", "0.000000015 / 7 + x", "x * (2 / 300000000)", "y / (0.00000000000000004 * 0.5 * x) + 1",
+                   "(1 / 3000000000) * x + 1", "5000000001 / 2 + x", "x + 5000000001 / 2", "3 * 333333333.5 + x", "1000000001 * 0.5 + x", "x * (10000000001 / 4)",
                    "x = 5000000001 / 2", "2x = 5000000001", "x + 1 = 1000000001 * 0.5", "7000000001 / 2 * x = 3"]
 
 
